@@ -179,10 +179,113 @@ def generate(indx_src):
             "def bufferSizeGen (n arity wi wr sumLen : Nat) : Nat := %s\n\nend Catii.Gen\n" % (",\n  ".join(ops), size))
 
 
+# ---------------------------------------------------------------------------------------------------------------------
+# the reader
+# ---------------------------------------------------------------------------------------------------------------------
+def generate_load(indx_src):
+    """`IndxIO.load` -> `loadProgram : List ROp`: the fixed header, the mapping step, then every read from the mapped buffer
+    in source order with the width it reads and the amount `offset` advances by (both taken from the source)."""
+    tree = ast.parse(indx_src)
+    cls = next(n for n in tree.body if isinstance(n, ast.ClassDef) and n.name == "IndxIO")
+    load = next(n for n in cls.body if isinstance(n, ast.FunctionDef) and n.name == "load")
+    if [a.arg for a in load.args.args] != ["f"]:
+        raise Unsupported("IndxIO.load signature changed")
+    body = [s for s in load.body if not (isinstance(s, ast.Expr) and isinstance(s.value, ast.Constant))]
+    ops = []
+    i = 0
+
+    def nxt():
+        nonlocal i
+        if i >= len(body):
+            raise Unsupported("IndxIO.load ends early")
+        s = body[i]
+        i += 1
+        return s
+
+    def expect(src, what=None):
+        s = nxt()
+        if not same_stmt(s, src):
+            raise Unsupported("%s: expected `%s`, found `%s`" % (what or "IndxIO.load", src, ast.unparse(s)[:160]))
+
+    def raises(s, test_src, exc="RuntimeError"):
+        return (isinstance(s, ast.If) and ast.unparse(s.test) == test_src and len(s.body) == 1 and isinstance(s.body[0], ast.Raise)
+                and not s.orelse and isinstance(s.body[0].exc, ast.Call) and ast.unparse(s.body[0].exc.func) == exc)
+
+    def unpack_from(name, fmt):
+        expect("%s = struct.unpack_from(%s, buf, offset=offset)[0]" % (name, fmt))
+
+    s = nxt()
+    if not raises(s, "f.read(4) != IndxIO.INDEXED_MAGIC"):
+        raise Unsupported("magic test: " + ast.unparse(s)[:120])
+    ops.append(".expectMagic")
+    expect("version = f.read(4)")
+    s = nxt()
+    if not raises(s, "version != IndxIO.VERSION"):
+        raise Unsupported("version test: " + ast.unparse(s)[:120])
+    ops.append(".expectVersion")
+    expect("buffer_size = struct.unpack('<Q', f.read(8))[0]")
+    ops.append(".headerSize")
+    expect("offset = 16")
+    expect("buffer_length = offset + buffer_size")
+    expect("buf = mmap.mmap(f.fileno(), buffer_length, flags=mmap.MAP_SHARED, prot=mmap.PROT_READ)")
+    ops.append(".map")
+    expect("entries = {}")
+    unpack_from("index_dimensions", "'<B'")
+    expect("offset += 1")
+    ops.append(".unpack 1 .dims")
+    unpack_from("index_length", "'<L'")
+    expect("offset += 4")
+    ops.append(".unpack 4 .count")
+    unpack_from("index_word_size", "'<B'")
+    expect("ind_format_string = IndxIO.format(index_word_size)")
+    expect("offset += 1")
+    ops.append(".unpack 1 .wi")
+    unpack_from("common", "ind_format_string")
+    expect("offset += index_word_size")
+    ops.append(".unpackFmtCommon")
+    expect("index = numpy.ndarray(shape=(index_length, index_dimensions), buffer=buf, dtype=IndxIO.dtype(index_word_size), offset=offset)")
+    expect("offset += index.nbytes")
+    expect("all_coords = [tuple(row) for row in index.tolist()]")
+    ops.append(".matrix")
+    s = nxt()      # the Python-2 `long` -> `int` conversion: a no-op on Python 3, any other statement here is not
+    if not (isinstance(s, ast.If) and ast.unparse(s.test) == "all_coords and any((type(c) is not int for c in all_coords[0]))"
+            and len(s.body) == 1 and same_stmt(s.body[0], "all_coords = [tuple([int(c) for c in row]) for row in all_coords]") and not s.orelse):
+        raise Unsupported("after the coordinate matrix: " + ast.unparse(s)[:160])
+    unpack_from("word_size", "'<B'")
+    expect("rowid_dtype = IndxIO.dtype(word_size)")
+    expect("offset += 1")
+    ops.append(".unpack 1 .wr")
+    expect("lengths = numpy.ndarray(shape=(len(all_coords),), buffer=buf, dtype=rowid_dtype, offset=offset)")
+    expect("offset += len(lengths) * word_size")
+    ops.append(".lengths")
+    expect("rowid_lists = numpy.ndarray(shape=int((buffer_length - offset) / rowid_dtype.itemsize), buffer=buf, dtype=rowid_dtype, offset=offset)")
+    ops.append(".rest")
+    expect("ptr = 0")
+    s = nxt()
+    ok = (isinstance(s, ast.For) and ast.unparse(s.target) == "(length, coords)" and ast.unparse(s.iter) == "zip(lengths.tolist(), all_coords)"
+          and not s.orelse and len(s.body) == 4 and same_stmt(s.body[0], "rowids = rowid_lists[ptr:ptr + length]")
+          and same_stmt(s.body[1], "ptr += length") and isinstance(s.body[2], ast.If)
+          and ast.unparse(s.body[2].test) == "rowids.dtype != numpy.uint32" and len(s.body[2].body) == 1
+          and same_stmt(s.body[2].body[0], "rowids = rowids.astype(numpy.uint32)") and not s.body[2].orelse
+          and same_stmt(s.body[3], "entries[coords] = rowids"))
+    if not ok:
+        raise Unsupported("the slicing loop: " + ast.unparse(s)[:200])
+    ops.append(".slice")
+    expect("return (entries, common, rowid_dtype)")
+    if i != len(body):
+        raise Unsupported("statements after the return")
+    return ("import CatiiModel.Indx\n"
+            "-- GENERATED by tools/translate_indx.py from IndxIO.load in src/catii/indxio.py; do not edit.\n"
+            "namespace Catii.Gen\nopen Catii.Indx\n\n"
+            "/-- every read of `IndxIO.load`, in source order -/\n"
+            "def loadProgram : List ROp := [\n  %s]\n\nend Catii.Gen\n" % ",\n  ".join(ops))
+
+
 def same_stmt(s, src):
     return ast.dump(s) == ast.dump(ast.parse(src).body[0])
 
 
 if __name__ == "__main__":
     import sys
+    print(generate_load(open(sys.argv[1] if len(sys.argv) > 1 else "/repo/src/catii/indxio.py").read()))
     print(generate(open(sys.argv[1] if len(sys.argv) > 1 else "/repo/src/catii/indxio.py").read()))
